@@ -3,6 +3,8 @@ package checks
 import (
 	"encoding/json"
 	"fmt"
+	"github.com/gittuf/gittuf/internal/verifharness/keys"
+	"github.com/gittuf/gittuf/pkg/githash"
 	"math/rand/v2"
 	"sort"
 	"strings"
@@ -189,7 +191,62 @@ func c08GenConfig(r *rand.Rand, h *scen.History, k int) c08Config {
 	return cfg
 }
 
+// c08TamperedRepetition: a log whose newest entry carries a number that does not
+// follow its parent's (a gap) is verified several times in one process without
+// resetting anything. Whatever the first verdict is (C04 judges that), every
+// repetition and the latest-only mode after it must give the same one: the
+// process cache may not remember its way across a break it refused before.
+func c08TamperedRepetition(c *fw.Ctx) {
+	r := c.Rand(uint64(850 + c.Shard))
+	n := c.Pick(64, 1600) / c.NShards
+	for i := 0; i < n; i++ {
+		h := genHistory(r, histOpts{Len: 4 + r.IntN(8), NoApprovals: true})
+		c08TamperedOne(c, h, 2+r.IntN(2))
+	}
+}
+
+func c08TamperedOne(c *fw.Ctx, h *scen.History, gap int) {
+	c.Eval(1)
+	cs := c08Case{History: h, Config: c08Config{PopulateAt: -1, Steps: []string{fmt.Sprintf("tampered-log-repetition:%d", gap)}}, Events: describeHistory(h)}
+	c.Guard(cs, func() {
+		rsl.VerifResetCache()
+		b := scen.NewMem()
+		_, _ = h.Build(b)
+		tip, err := b.GetReference(refMain)
+		if err != nil {
+			return // no push to main in this history
+		}
+		latest, err := rsl.GetLatestEntry(b)
+		if err != nil {
+			return
+		}
+		e := rsl.NewReferenceEntry(refMain, tip)
+		e.Number = latest.GetNumber() + uint64(gap)
+		msg, _ := rsl.VerifCanonicalText(e)
+		empty, _ := b.EmptyTree()
+		rslTip, _ := b.GetReference(rsl.Ref)
+		b.ForceRef(rsl.Ref, b.CreateCommit(empty, []githash.Hash{rslTip}, msg, keys.Get("k1")))
+		rsl.VerifResetCache()
+		verdicts := []string{}
+		for j := 0; j < 3; j++ {
+			_, verr := policy.NewPolicyVerifier(b).VerifyRefFull(scen.Ctx, refMain)
+			verdicts = append(verdicts, fmt.Sprint(verr == nil))
+		}
+		_, lerr := policy.NewPolicyVerifier(b).VerifyRef(scen.Ctx, refMain)
+		verdicts = append(verdicts, fmt.Sprint(lerr == nil))
+		c.Nontrivial(fw.Hash("tampered-repetition", h))
+		for _, v := range verdicts[1:] {
+			if v != verdicts[0] {
+				c.Violation("verdict-changes-on-repetition", map[string]string{"log": "numbering-gap"}, fmt.Sprintf("a log whose newest entry skips a number, verified 3x in full mode then latest-only in one process: accepted = %v", verdicts), cs)
+				return
+			}
+		}
+		c.Count("tampered-log-repetition:stable:"+verdicts[0], 1)
+	})
+}
+
 func runC08(c *fw.Ctx) {
+	c08TamperedRepetition(c)
 	c08RecoveryPatterns(c)
 	n := c.Pick(600, 8000) / c.NShards
 	r := c.Rand(uint64(800 + c.Shard))
@@ -509,6 +566,12 @@ func replayC08(c *fw.Ctx, raw json.RawMessage) error {
 		fmt.Println("  ", l)
 	}
 	fmt.Printf("configuration: %+v\n", cs.Config)
+	if len(cs.Config.Steps) == 1 && strings.HasPrefix(cs.Config.Steps[0], "tampered-log-repetition:") {
+		gap := 2
+		fmt.Sscanf(cs.Config.Steps[0], "tampered-log-repetition:%d", &gap)
+		c08TamperedOne(c, cs.History, gap)
+		return nil
+	}
 	c08Judge(c, cs.History, []c08Config{cs.Config})
 	return nil
 }
